@@ -1,6 +1,6 @@
 """Engine `toy` - C06 (execution vs. reference accumulator machine), C19 (encoding + assembler),
 C20 (whole steps == half-cycle steps, sequencing errors)."""
-from ..common import guarded, rng_for, h64
+from ..common import guarded, rng_for, h64, with_alarm, AlarmTimeout
 from ..refmodels.toy import RefToy, MNEMONICS, ADDRESS_TYPE, decode_word
 
 RULE = {
@@ -436,8 +436,15 @@ def run_halves_case(case, res):
             legal = {"step": due == 1, "first": due == 1, "second": due == 2, "single": True, "run": due == 1}[call]
         f = {"step": A.step, "first": A.first_cycle_step, "second": A.second_cycle_step, "single": A.single_step, "run": A.run}[call]
         try:
-            f()
+            if call == "run":
+                with_alarm(15, f)
+            else:
+                f()
             raised = None
+        except AlarmTimeout:
+            # the reference machine terminates, run() does not: an execution defect (C06), not a sequencing one
+            res.violation("C06", "run-does-not-terminate", "run() did not return within 15 s on a program the reference machine finishes", case)
+            return
         except StepSequenceError as e:
             raised = e
         except Exception as e:
